@@ -651,6 +651,7 @@ class Rec:
                     "counters": {}, "sets": {}, "samples": []}
         self._per_mech = {}
         self._nt = set()
+        self._obs_examples = set()
 
     def count(self, name, n=1):
         c = self.res["counters"]
@@ -672,7 +673,10 @@ class Rec:
         """judged -> violation (capped per mechanism); otherwise observation."""
         if not judged:
             self.count("observation_failures")
-            self.note("observations", f"{mechanism}: {what[:300]}")
+            self.note("observations", mechanism)
+            if mechanism not in self._obs_examples and self.params.get("kind") in ("static", "one"):
+                self._obs_examples.add(mechanism)
+                self.note("observation_examples", f"{mechanism}: {what[:300]}")
             return
         self.count("violating_cases")
         n = self._per_mech.get(mechanism, 0)
@@ -811,9 +815,10 @@ def check_target_value(t: Target, case_seed: str, L, rec: Rec, tags_mode, big):
     value = g.struct(t.schema)
     rec.res["evaluations"] += 1
     rec.nontrivial(t.label, g.features)
-    witness_base = {"class": t.name, "label": t.label, "value": jsonable(value),
-                    "shard": {"kind": "one", "class": t.name, "case_seed": case_seed,
-                              "tags_mode": tags_mode, "big": big, "mode": "value"}}
+    def witness_base():
+        return {"class": t.name, "label": t.label, "value": jsonable(value),
+                "shard": {"kind": "one", "class": t.name, "case_seed": case_seed,
+                          "tags_mode": tags_mode, "big": big, "mode": "value"}}
     tag_dicts = collect_tags(t.schema, value, []) if tags_mode != "empty" else []
     if tag_dicts:
         rec.count("cases_with_nonempty_tags")
@@ -821,7 +826,7 @@ def check_target_value(t: Target, case_seed: str, L, rec: Rec, tags_mode, big):
         plain = strip_tags(t.schema, value)
         for kind, what, extra in run_value_case(t, plain, L, rec, case_seed):
             rec.fail(t.judged, f"{t.label}_{kind}", f"{t.name}: {what}",
-                     {**witness_base, "value": jsonable(plain), **extra})
+                     {**witness_base(), "value": jsonable(plain), **extra})
         fails = run_value_case(t, value, L, rec, case_seed)
         if fails:
             defects = {tagged_primitive_defect(d, L) for d in tag_dicts} - {None}
@@ -835,13 +840,13 @@ def check_target_value(t: Target, case_seed: str, L, rec: Rec, tags_mode, big):
                               "TaggedFields.encode writes tag and data but not the data size, so a non-empty "
                               "tag section is not the Kafka layout and does not decode back to the original")
                              + f" (seen in {t.name}: {what})",
-                             {**witness_base, "tag_sections": jsonable(tag_dicts), **extra})
+                             {**witness_base(), "tag_sections": jsonable(tag_dicts), **extra})
             else:
                 for kind, what, extra in fails:
-                    rec.fail(t.judged, f"{t.label}_{kind}", f"{t.name}: {what}", {**witness_base, **extra})
+                    rec.fail(t.judged, f"{t.label}_{kind}", f"{t.name}: {what}", {**witness_base(), **extra})
         return value
     for kind, what, extra in run_value_case(t, value, L, rec, case_seed):
-        rec.fail(t.judged, f"{t.label}_{kind}", f"{t.name}: {what}", {**witness_base, **extra})
+        rec.fail(t.judged, f"{t.label}_{kind}", f"{t.name}: {what}", {**witness_base(), **extra})
     return value
 
 
@@ -875,8 +880,9 @@ def check_reply_case(req_t: Target, case_seed: str, L, rec: Rec, big):
         h = inst.parse_response_header(bio)
         if h.correlation_id != corr or bio.tell() != len(header):
             rec.fail(req_t.judged, f"{api}_v{key[1]}_response_header_form",
-                     f"{cls.__name__}.parse_response_header read correlation_id={h.correlation_id} and "
-                     f"{bio.tell()} bytes; Kafka header is {len(header)} bytes with correlation_id={corr}", witness)
+                     f"{cls.__name__}.parse_response_header consumed {bio.tell()} bytes"
+                     f"{'' if h.correlation_id == corr else ' and misread the correlation id'}; the Kafka response "
+                     f"header for version {key[1]} is {len(header)} bytes", witness)
             return
         dec = RT.decode(bio)
         used = bio.tell()
@@ -900,3 +906,613 @@ def check_reply_case(req_t: Target, case_seed: str, L, rec: Rec, big):
     elif not same(got, expect):
         rec.fail(req_t.judged, mech, f"reply to {cls.__name__} parsed with {RT.__name__} differs from what the "
                  f"broker sent: {_first_value_diff(expect, got)}", witness)
+
+
+# =====================================================================================
+# static checks: schema shapes, field order, flexible flags, RESPONSE_TYPE pairing
+# =====================================================================================
+
+def check_structure(targets, L, rec: Rec):
+    T = L.T
+    reach = set()
+    for t in targets:
+        ms, ls = my_schema_shape(t.schema), lib_shape(t.cls.SCHEMA, T)
+        _collect_prims(t.cls.SCHEMA, T, reach)
+        rec.res["evaluations"] += 1
+        rec.count("structs_judged" if t.judged else "structs_observed_only")
+        if not t.judged:
+            rec.note("observation_only_classes", t.name)
+        d = shape_diff(ms, ls)
+        w = {"class": t.name, "table_shape": _short(ms), "library_shape": _short(ls),
+             "shard": {"kind": "static"}}
+        if d:
+            rec.fail(t.judged, f"{t.label}_layout", f"{t.name}.SCHEMA differs from the Kafka layout at {d}", w)
+        swaps, unmatched = name_report(t.schema, t.cls.SCHEMA, T)
+        for s in swaps:
+            rec.fail(t.judged, f"{t.label}_field_order", f"{t.name}: {s}", w)
+        for u in unmatched:
+            rec.note("field_names_not_matched", f"{t.name}{u}")
+        if t.kind == "request":
+            m = re.search(r"_v(\d+)$", t.name)
+            if m and int(m.group(1)) != t.cls.API_VERSION:
+                rec.note("observations", f"class_name_version: {t.name} declares API_VERSION={t.cls.API_VERSION}")
+            flex = wire.SCHEMAS[t.key]["flexible"]
+            if bool(t.cls.FLEXIBLE_VERSION) != flex:
+                rec.fail(t.judged, f"{t.label}_header_form",
+                         f"{t.name}.FLEXIBLE_VERSION={t.cls.FLEXIBLE_VERSION} but Kafka version {t.key[1]} of "
+                         f"{wire.SCHEMAS[t.key]['name']} is {'flexible' if flex else 'not flexible'} "
+                         f"(request header v{2 if flex else 1}, response header v{1 if flex else 0})", w)
+            # RESPONSE_TYPE pairing, structural
+            RT = t.cls.RESPONSE_TYPE
+            rs = lib_shape(RT.SCHEMA, T)
+            want = my_schema_shape(wire.SCHEMAS[t.key]["response"])
+            rec.count("response_type_pairs_checked")
+            d = shape_diff(want, rs)
+            if d:
+                api = snake(wire.SCHEMAS[t.key]["name"])
+                rec.fail(t.judged, f"{api}_v{t.key[1]}_response_type_schema",
+                         f"{t.name} writes version {t.key[1]} in the header but RESPONSE_TYPE={RT.__name__} whose "
+                         f"schema differs from the version-{t.key[1]} response at {d}",
+                         {"class": t.name, "response_type": RT.__name__, "table_shape": _short(want),
+                          "library_shape": _short(rs), "shard": {"kind": "static"}})
+            try:
+                if int(RT.API_VERSION) != t.cls.API_VERSION:
+                    rec.note("observations", f"response_type_version_attr: {t.name} (v{t.cls.API_VERSION}) -> "
+                                             f"{RT.__name__} (API_VERSION={RT.API_VERSION})"
+                                             + ("" if d else ", schemas identical: harmless"))
+            except Exception:  # noqa: BLE001
+                pass
+    return reach
+
+
+def _collect_prims(t, T, acc):
+    if isinstance(t, T.Schema):
+        for f in t.fields:
+            _collect_prims(f, T, acc)
+    elif isinstance(t, T.Array):
+        acc.add(type(t).__name__)
+        _collect_prims(t.array_of, T, acc)
+    elif isinstance(t, T.String):
+        acc.add(type(t).__name__)
+    elif isinstance(t, type):
+        acc.add(t.__name__)
+
+
+# =====================================================================================
+# headers
+# =====================================================================================
+
+CLIENT_IDS = ["aiokafka", "", "c", "клиент-1", "x" * 127, "x" * 128, None, "id with space"]
+
+
+def check_headers(targets, L, rec: Rec, rng):
+    for t in targets:
+        if t.kind != "request":
+            continue
+        cls = t.cls
+        inst = cls.__new__(cls)
+        for cid in CLIENT_IDS:
+            corr = rng.choice([0, 1, 2 ** 31 - 1, rng.randint(0, 2 ** 31 - 1)])
+            rec.count("header_cases_checked")
+            rec.res["evaluations"] += 1
+            ref = wire.encode_request_header(cls.API_KEY, cls.API_VERSION, corr, cid)
+            w = {"class": t.name, "correlation_id": corr, "client_id": cid, "ref_hex": hexs(ref),
+                 "shard": {"kind": "static"}}
+            try:
+                lb = inst.build_request_header(correlation_id=corr, client_id=cid).encode()
+            except Exception as e:  # noqa: BLE001
+                rec.fail(t.judged, f"{t.label}_header_encode_raises",
+                         f"{t.name}.build_request_header raised {type(e).__name__}: {e}", w)
+                continue
+            if lb != ref:
+                w["lib_hex"] = hexs(lb)
+                rec.fail(t.judged, f"{t.label}_header_form",
+                         f"{t.name} request header bytes differ from Kafka header "
+                         f"v{wire.request_header_version(cls.API_KEY, cls.API_VERSION)}: {_first_diff(lb, ref)}", w)
+                continue
+            k, v, c, ci, off = wire.decode_request_header(lb)
+            if (k, v, c, ci, off) != (cls.API_KEY, cls.API_VERSION, corr, cid, len(lb)):
+                rec.fail(t.judged, f"{t.label}_header_form", f"{t.name} header decodes to {(k, v, c, ci, off)}", w)
+
+
+# =====================================================================================
+# prepare() negotiation
+# =====================================================================================
+
+def builder_instance(B, L, rng):
+    """A real builder instance with neutral arguments, or a bare object whose build() returns the
+    class (still exercises prepare())."""
+    f = FACTORIES.get(B.__name__)
+    if f is not None:
+        try:
+            return B(**f(rng)), True
+        except TypeError:
+            pass
+    inst = object.__new__(B)
+    inst.build = lambda c: c.__new__(c)
+    return inst, False
+
+
+def check_negotiation(L, rec: Rec, rng):
+    for B in L.builders:
+        versions = sorted({c.API_VERSION for c in B._CLASSES})
+        top = max(versions)
+        inst, real = builder_instance(B, L, rng)
+        if not real:
+            rec.note("builders_without_factory", B.__name__)
+        rec.note("builder_versions", f"{B.__name__}: {versions}")
+        for lo in range(0, top + 3):
+            for hi in range(lo, top + 3):
+                rec.count("negotiation_pairs_checked")
+                rec.res["evaluations"] += 1
+                inter = [v for v in versions if lo <= v <= hi]
+                expect = max(inter) if inter else None
+                if expect is None:
+                    rec.count("negotiation_disjoint_pairs")
+                w = {"builder": B.__name__, "client_versions": versions, "broker_range": [lo, hi],
+                     "expected": expect, "shard": {"kind": "static"}}
+                mech = f"{snake(B.__name__)}_prepare_version_choice"
+                try:
+                    got = inst.prepare({B.API_KEY: (lo, hi)})
+                except Exception as e:  # noqa: BLE001
+                    if expect is not None:
+                        w["raised"] = f"{type(e).__name__}: {e}"
+                        rec.fail(True, mech, f"{B.__name__}.prepare(({lo},{hi})) raised {type(e).__name__} although "
+                                 f"version {expect} is supported by both sides", w)
+                    continue
+                gv = getattr(type(got), "API_VERSION", getattr(got, "API_VERSION", None))
+                w["got"] = f"{type(got).__name__} v{gv}"
+                if expect is None:
+                    rec.fail(True, mech, f"{B.__name__}.prepare(({lo},{hi})) returned {type(got).__name__} "
+                             f"(v{gv}) although no common version exists; client has {versions}", w)
+                elif gv != expect:
+                    rec.fail(True, mech, f"{B.__name__}.prepare(({lo},{hi})) chose v{gv}; the highest common "
+                             f"version is v{expect}" + ("" if lo <= gv <= hi else " and the choice is outside the broker range"), w)
+                elif real:
+                    # the version written in the header is the chosen one
+                    hb = got.build_request_header(correlation_id=7, client_id="c").encode()
+                    k, v, *_ = wire.decode_request_header(hb)
+                    if (k, v) != (B.API_KEY, expect):
+                        rec.fail(True, mech, f"{B.__name__}: header carries ({k},{v}) instead of ({B.API_KEY},{expect})", w)
+        # unknown api key (not part of the statement): observation only
+        try:
+            got = inst.prepare({})
+            rec.note("observations", f"prepare_without_versions: {B.__name__} -> {type(got).__name__}")
+        except Exception as e:  # noqa: BLE001
+            rec.note("prepare_without_versions_raises", f"{B.__name__}: {type(e).__name__}")
+
+
+# =====================================================================================
+# builders: neutral arguments, and the parameters the statement names
+# =====================================================================================
+
+def _s(rng, prefix):
+    return f"{prefix}-{rng.randrange(10 ** 6)}"
+
+
+_ACL = lambda rng: dict(resource_type=2, resource_name=_s(rng, "res"), resource_pattern_type_filter=3,  # noqa: E731
+                        principal="User:" + _s(rng, "u"), host="*", operation=3, permission_type=3)
+
+FACTORIES = {
+    "ApiVersionRequest": lambda rng: {},
+    "ListGroupsRequest": lambda rng: {},
+    "ProduceRequest": lambda rng: dict(transactional_id=None, required_acks=rng.choice([-1, 0, 1]),
+                                       timeout=rng.randint(1, 60000),
+                                       topics=[(_s(rng, "t"), [(rng.randint(0, 50), rng.randbytes(9))])]),
+    "FetchRequest": lambda rng: dict(max_wait_time=rng.randint(0, 5000), min_bytes=1, max_bytes=rng.randint(1, 2 ** 30),
+                                     isolation_level=0,
+                                     topics=[(_s(rng, "t"), [(rng.randint(0, 9), rng.randint(0, 2 ** 40), 1048576)])]),
+    "OffsetRequest": lambda rng: dict(replica_id=-1, isolation_level=0, topics=[(_s(rng, "t"), [(0, -1), (1, -2)])]),
+    "MetadataRequest": lambda rng: dict(topics=[_s(rng, "t")]),
+    "OffsetCommitRequest": lambda rng: dict(consumer_group=_s(rng, "g"), consumer_group_generation_id=rng.randint(0, 999),
+                                            consumer_id=_s(rng, "m"), retention_time=-1,
+                                            topics=[(_s(rng, "t"), [(0, rng.randint(0, 2 ** 40), "meta")])]),
+    "OffsetFetchRequest": lambda rng: dict(consumer_group=_s(rng, "g"), partitions=[(_s(rng, "t"), [0, 1])]),
+    "JoinGroupRequest": lambda rng: dict(group=_s(rng, "g"), session_timeout=10000, rebalance_timeout=30000,
+                                         member_id="", group_instance_id=None, protocol_type="consumer",
+                                         group_protocols=[("range", rng.randbytes(5))]),
+    "SyncGroupRequest": lambda rng: dict(group=_s(rng, "g"), generation_id=rng.randint(0, 99), member_id=_s(rng, "m"),
+                                         group_instance_id=None, group_assignment=[(_s(rng, "m"), rng.randbytes(4))]),
+    "HeartbeatRequest": lambda rng: dict(group=_s(rng, "g"), generation_id=rng.randint(0, 99), member_id=_s(rng, "m")),
+    "LeaveGroupRequest": lambda rng: dict(group=_s(rng, "g"), member_id=_s(rng, "m")),
+    "FindCoordinatorRequest": lambda rng: dict(coordinator_key=_s(rng, "g"), coordinator_type=0),
+    "InitProducerIdRequest": lambda rng: dict(transactional_id=None, transaction_timeout_ms=rng.randint(1, 60000)),
+    "AddPartitionsToTxnRequest": lambda rng: dict(transactional_id=_s(rng, "tx"), producer_id=rng.randint(0, 2 ** 40),
+                                                  producer_epoch=rng.randint(0, 99), topics=[(_s(rng, "t"), [0, 3])]),
+    "AddOffsetsToTxnRequest": lambda rng: dict(transactional_id=_s(rng, "tx"), producer_id=rng.randint(0, 2 ** 40),
+                                               producer_epoch=rng.randint(0, 99), group_id=_s(rng, "g")),
+    "EndTxnRequest": lambda rng: dict(transactional_id=_s(rng, "tx"), producer_id=rng.randint(0, 2 ** 40),
+                                      producer_epoch=rng.randint(0, 99), transaction_result=rng.random() < 0.5),
+    "TxnOffsetCommitRequest": lambda rng: dict(transactional_id=_s(rng, "tx"), group_id=_s(rng, "g"),
+                                               producer_id=rng.randint(0, 2 ** 40), producer_epoch=rng.randint(0, 99),
+                                               topics=[(_s(rng, "t"), [(0, rng.randint(0, 2 ** 40), None)])]),
+    "CreateTopicsRequest": lambda rng: dict(create_topic_requests=[(_s(rng, "t"), 3, 1, [(0, [1, 2])], [("k", "v")])],
+                                            timeout=rng.randint(1, 60000), validate_only=False),
+    "DeleteTopicsRequest": lambda rng: dict(topics=[_s(rng, "t")], timeout=rng.randint(1, 60000)),
+    "DescribeGroupsRequest": lambda rng: dict(groups=[_s(rng, "g")]),
+    "SaslHandShakeRequest": lambda rng: dict(mechanism="SCRAM-SHA-256"),
+    "SaslAuthenticateRequest": lambda rng: dict(payload=rng.randbytes(12)),
+    "DescribeAclsRequest": _ACL, "CreateAclsRequest": _ACL, "DeleteAclsRequest": _ACL,
+    "AlterConfigsRequest": lambda rng: dict(resources=[(2, _s(rng, "t"), [("k", "v"), ("n", None)])]),
+    "DescribeConfigsRequest": lambda rng: dict(resources=[(2, _s(rng, "t"), ["k"]), (4, "1", None)]),
+    "CreatePartitionsRequest": lambda rng: dict(topic_partitions=[(_s(rng, "t"), (6, [[1, 2], [2, 3]]))],
+                                                timeout=rng.randint(1, 60000), validate_only=False),
+    "DeleteGroupsRequest": lambda rng: dict(group_names=[_s(rng, "g")]),
+    "DescribeClientQuotasRequest": lambda rng: dict(components=[("user", 0, _s(rng, "u")), ("client-id", 1, None)],
+                                                    strict=False),
+    "AlterPartitionReassignmentsRequest": lambda rng: dict(timeout_ms=rng.randint(1, 60000),
+                                                           topics=[(_s(rng, "t"), [(0, [1, 2], {}), (1, None, {})], {})],
+                                                           tags={}),
+    "ListPartitionReassignmentsRequest": lambda rng: dict(timeout_ms=rng.randint(1, 60000),
+                                                          topics=[(_s(rng, "t"), [0, 1], {})], tags={}),
+    "DeleteRecordsRequest": lambda rng: dict(topics=[(_s(rng, "t"), [(0, rng.randint(0, 2 ** 40))])],
+                                             timeout_ms=rng.randint(1, 60000)),
+}
+
+
+def _ts_of(decoded):
+    return [p["timestamp"] for t in decoded["topics"] for p in t["partitions"]]
+
+
+# builder -> {ctor kwarg: {"field": table field (top level) or extractor, "judged": bool,
+#                          "values": [(value, is_non_default, expected decoded value)],
+#                          "min_version": first version able to express a non-default (None = by table)}}
+TXN = "txn-é-1"
+PARAMS = {
+    "ProduceRequest": {"transactional_id": dict(field="transactional_id", judged=True, what="transactional id",
+                                                values=[(None, False, None), (TXN, True, TXN)])},
+    "InitProducerIdRequest": {"transactional_id": dict(field="transactional_id", judged=True, what="transactional id",
+                                                       values=[(None, False, None), (TXN, True, TXN)])},
+    "AddPartitionsToTxnRequest": {"transactional_id": dict(field="transactional_id", judged=True,
+                                                           what="transactional id", values=[(TXN, True, TXN)])},
+    "AddOffsetsToTxnRequest": {"transactional_id": dict(field="transactional_id", judged=True,
+                                                        what="transactional id", values=[(TXN, True, TXN)])},
+    "EndTxnRequest": {"transactional_id": dict(field="transactional_id", judged=True,
+                                               what="transactional id", values=[(TXN, True, TXN)])},
+    "TxnOffsetCommitRequest": {"transactional_id": dict(field="transactional_id", judged=True,
+                                                        what="transactional id", values=[(TXN, True, TXN)])},
+    "FetchRequest": {
+        "isolation_level": dict(field="isolation_level", judged=True, what="isolation level",
+                                values=[(0, False, 0), (1, True, 1)]),
+        "rack_id": dict(field="rack_id", judged=False, what="rack id", values=[("", False, ""), ("rack-a", True, "rack-a")]),
+    },
+    "OffsetRequest": {
+        "isolation_level": dict(field="isolation_level", judged=True, what="isolation level",
+                                values=[(0, False, 0), (1, True, 1)]),
+        # ListOffsets v0 is the old "offsets before" API (max_num_offsets); a lookup by timestamp
+        # that returns (timestamp, offset) exists from v1
+        "topics": dict(field=_ts_of, judged=True, what="timestamp search", min_version=1,
+                       values=[([("t", [(0, -1), (1, -2)])], False, [-1, -2]),
+                               ([("t", [(0, 1500000000123)])], True, [1500000000123]),
+                               ([("t", [(0, -1), (1, 0)])], True, [-1, 0]),
+                               ([("t", [(3, 2 ** 63 - 1)])], True, [2 ** 63 - 1])]),
+    },
+    "FindCoordinatorRequest": {"coordinator_type": dict(field="key_type", judged=True, what="coordinator type",
+                                                        values=[(0, False, 0), (1, True, 1)])},
+    "DescribeGroupsRequest": {"include_authorized_operations": dict(
+        field="include_authorized_operations", judged=True, what="authorized operations",
+        values=[(False, False, False), (True, True, True)])},
+    "MetadataRequest": {"allow_auto_topic_creation": dict(field="allow_auto_topic_creation", judged=False,
+                                                          what="allow_auto_topic_creation",
+                                                          values=[(None, False, True), (False, True, False)])},
+    "JoinGroupRequest": {"group_instance_id": dict(field="group_instance_id", judged=False, what="group_instance_id",
+                                                   values=[(None, False, None), ("inst-1", True, "inst-1")])},
+    "SyncGroupRequest": {"group_instance_id": dict(field="group_instance_id", judged=False, what="group_instance_id",
+                                                   values=[(None, False, None), ("inst-1", True, "inst-1")])},
+    "CreateTopicsRequest": {"validate_only": dict(field="validate_only", judged=False, what="validate_only",
+                                                  values=[(False, False, False), (True, True, True)])},
+    "DescribeConfigsRequest": {"include_synonyms": dict(field="include_synonyms", judged=False, what="include_synonyms",
+                                                        values=[(False, False, False), (True, True, True)])},
+}
+
+
+def _combos(spec):
+    names = sorted(spec)
+    out = [{}]
+    for n in names:
+        out = [{**c, n: v} for c in out for v in spec[n]["values"]]
+    return out
+
+
+def check_builders(L, rec: Rec, rng):
+    for B in L.builders:
+        name = B.__name__
+        fac = FACTORIES.get(name)
+        if fac is None:
+            rec.note("builders_without_factory", name)
+            continue
+        spec = PARAMS.get(name, {})
+        versions = sorted({c.API_VERSION for c in B._CLASSES})
+        api = snake(wire.API_NAMES.get(B.API_KEY, name))
+        for v in versions:
+            table = wire.SCHEMAS.get((B.API_KEY, v))
+            if table is None:
+                continue
+            fields = {f[0] for f in table["request"]}
+            for combo in _combos(spec):
+                kwargs = fac(rng)
+                kwargs.update({k: val[0] for k, val in combo.items()})
+                rec.count("builder_param_cases_checked")
+                rec.res["evaluations"] += 1
+                nondefault = [k for k, val in combo.items() if val[1]]
+
+                def expressible(k):
+                    ps = spec[k]
+                    if ps.get("min_version") is not None:
+                        return v >= ps["min_version"]
+                    return ps["field"] in fields
+                w = {"builder": name, "version": v, "kwargs": jsonable(kwargs), "shard": {"kind": "static"}}
+                try:
+                    st = B(**kwargs).prepare({B.API_KEY: (v, v)})
+                    lb = st.encode()
+                except L.Incompatible as e:
+                    cannot = [k for k in nondefault if not expressible(k)]
+                    if cannot:
+                        rec.count("builder_params_rejected_incompatible")
+                        if len(nondefault) == 1:
+                            rec.note("params_rejected", f"{name} v{v}: {spec[cannot[0]]['what']}")
+                    else:
+                        rec.note("observations", f"spurious_incompatible: {name} v{v} raised for {sorted(nondefault)}: {e}")
+                    continue
+                except Exception as e:  # noqa: BLE001
+                    rec.fail(True, f"{api}_v{v}_builder_raises",
+                             f"{name} cannot build/encode version {v}: {type(e).__name__}: {str(e)[:200]}", w)
+                    continue
+                w["lib_hex"] = hexs(lb)
+                if st.API_VERSION != v:
+                    rec.fail(True, f"{snake(name)}_prepare_version_choice",
+                             f"{name}.prepare(({v},{v})) built {type(st).__name__}", w)
+                    continue
+                try:
+                    dec, off = wire.decode_struct(table["request"], lb)
+                    if off != len(lb):
+                        raise wire.WireError(f"{len(lb) - off} trailing bytes")
+                    if wire.encode_struct(table["request"], dec) != lb:
+                        raise wire.WireError("re-encoding the decoded request gives different bytes")
+                except wire.WireError as e:
+                    rec.fail(True, f"{api}_v{v}_builder_bytes",
+                             f"{name} v{v}: built request is not a valid Kafka {wire.API_NAMES[B.API_KEY]} v{v} "
+                             f"request: {e}", w)
+                    continue
+                rec.count("builder_requests_decoded_by_table")
+                for k, (val, nd, expect) in combo.items():
+                    ps = spec[k]
+                    if not nd and not expressible(k):
+                        continue
+                    if expressible(k):
+                        got = ps["field"](dec) if callable(ps["field"]) else dec[ps["field"]]
+                        ok = same(norm(got), norm(expect))
+                        if ok and nd:
+                            rec.count("builder_params_found_encoded")
+                        if not ok:
+                            mech = f"{snake(name)}_{snake(k)}_wrong_value_encoded"
+                            rec.fail(ps["judged"], mech, f"{name} v{v}: {ps['what']}={val!r} was given, the encoded "
+                                     f"request carries {got!r}", w)
+                    elif nd:
+                        mech = f"{snake(name)}_{snake(k)}_silently_dropped"
+                        what = (f"{name} v{v}: {ps['what']}={val!r} cannot be expressed by version {v}, yet the "
+                                f"request was built without IncompatibleBrokerVersion (parameter silently dropped)")
+                        if ps["judged"]:
+                            rec.fail(True, mech, what, w)
+                        else:
+                            rec.note("unjudged_params_dropped", f"{name} v{v}: {ps['what']}")
+
+
+# =====================================================================================
+# primitives
+# =====================================================================================
+
+def check_primitives(L, rec: Rec, rng, reach, n_random):
+    T = L.T
+    compact_reached = bool(reach & {"CompactString", "CompactBytes", "CompactArray", "TaggedFields"})
+
+    def run(label, judged, lib_t, enc, dec, values):
+        for v in values:
+            rec.count("primitive_cases_checked" if judged else "primitive_cases_observed_only")
+            rec.res["evaluations"] += 1
+            w = {"primitive": label, "value": jsonable(v), "shard": {"kind": "static"}}
+            try:
+                ref = enc(v)
+            except wire.WireError as e:
+                rec.inconclusive(f"oracle cannot encode in-range {label} value {v!r}: {e}")
+                continue
+            try:
+                lb = lib_t.encode(v)
+            except Exception as e:  # noqa: BLE001
+                rec.fail(judged, f"primitive_{label}_encode_raises", f"{label}.encode({jsonable(v)!r}) raised "
+                         f"{type(e).__name__}: {str(e)[:120]}", {**w, "ref_hex": hexs(ref)})
+                lb = None
+            if lb is not None and lb != ref:
+                rec.fail(judged, f"primitive_{label}_encode_mismatch",
+                         f"{label}.encode({jsonable(v)!r}) = {hexs(lb, 24)}, Kafka encoding is {hexs(ref, 24)}",
+                         {**w, "lib_hex": hexs(lb), "ref_hex": hexs(ref)})
+            for which, data in (("own", lb), ("reference", ref)):
+                if data is None or (which == "reference" and data == lb):
+                    continue
+                try:
+                    bio = io.BytesIO(data)
+                    got = lib_t.decode(bio)
+                    used = bio.tell()
+                except Exception as e:  # noqa: BLE001
+                    rec.fail(judged, f"primitive_{label}_decode_{which}_raises",
+                             f"{label}.decode of {which} bytes {hexs(data, 24)} raised {type(e).__name__}",
+                             {**w, "data_hex": hexs(data)})
+                    continue
+                if used != len(data) or not same(norm(got), norm(v)):
+                    rec.fail(judged, f"primitive_{label}_decode_{which}_value",
+                             f"{label}.decode of {which} bytes {hexs(data, 24)} gives {jsonable(got)!r}, "
+                             f"original {jsonable(v)!r}", {**w, "data_hex": hexs(data)})
+
+    P = wire.PRIMITIVES
+    for label, lib_t, my in (("Int8", T.Int8, "int8"), ("Int16", T.Int16, "int16"), ("Int32", T.Int32, "int32"),
+                             ("Int64", T.Int64, "int64"), ("UInt32", T.UInt32, "uint32")):
+        lo, hi = INT_RANGES[my]
+        vals = [lo, lo + 1, -1 if lo < 0 else 1, 0, 1, hi - 1, hi] + [rng.randint(lo, hi) for _ in range(n_random)]
+        run(label, label in reach, lib_t, P[my][0], P[my][1], vals)
+    run("Float64", "Float64" in reach, T.Float64, P["float64"][0], P["float64"][1],
+        FLOATS + [rng.uniform(-1e300, 1e300) for _ in range(n_random)])
+    run("Boolean", "Boolean" in reach, T.Boolean, P["bool"][0], P["bool"][1], [True, False])
+    strings = [None] + STR_POOL + ["z" * 16383, "z" * 16384, "z" * 32767] + \
+        [Gen(rng).string(True, False) for _ in range(n_random)]
+    run("String", "String" in reach, T.String("utf-8"), P["nullable_string"][0], P["nullable_string"][1], strings)
+    run("CompactString", "CompactString" in reach, T.CompactString("utf-8"), P["compact_nullable_string"][0],
+        P["compact_nullable_string"][1], strings)
+    blobs = [None, b"", b"\x00", rng.randbytes(126), rng.randbytes(127), rng.randbytes(128), rng.randbytes(16383),
+             rng.randbytes(16384), b"q" * 2097151, b"q" * 2097152] + [Gen(rng).bytes_(True) for _ in range(n_random)]
+    run("Bytes", "Bytes" in reach, T.Bytes, P["nullable_bytes"][0], P["nullable_bytes"][1], blobs)
+    run("CompactBytes", "CompactBytes" in reach, T.CompactBytes, P["compact_nullable_bytes"][0],
+        P["compact_nullable_bytes"][1], blobs)
+    uv = UVARINT_EDGES + [rng.randint(0, 2 ** 32 - 1) for _ in range(n_random)] + \
+        [rng.randint(0, 2 ** rng.randint(1, 32) - 1) for _ in range(n_random)]
+    run("UnsignedVarInt32", compact_reached or "UnsignedVarInt32" in reach, T.UnsignedVarInt32,
+        wire.encode_uvarint, wire.decode_uvarint, uv)
+    # arrays of a primitive, incl. null / empty / boundary sizes
+    arrs = [None, [], [0], [-1, 2 ** 31 - 1, -2 ** 31], list(range(126)), list(range(127)), list(range(128))] + \
+        [[rng.randint(-2 ** 31, 2 ** 31 - 1) for _ in range(rng.randint(1, 6))] for _ in range(n_random)]
+    for label, lib_t, compact in (("Array", T.Array(T.Int32), False), ("CompactArray", T.CompactArray(T.Int32), True)):
+        t = ("array", "int32", True, compact)
+
+        def enc(v, t=t):
+            out = []
+            wire._encode_type(t, v, out, "array")
+            return b"".join(out)
+
+        def dec(buf, off=0, t=t):
+            return wire._decode_type(t, buf, off, "array")
+        run(label, label in reach, lib_t, enc, dec, arrs)
+    # tagged fields: empty section is judged here; non-empty sections are classified narrowly
+    run("TaggedFields_empty", "TaggedFields" in reach, T.TaggedFields, wire.encode_tagged_fields,
+        wire.decode_tagged_fields, [{}])
+    judged = "TaggedFields" in reach
+    for tags in ([{1: b"ab"}, {1: b""}, {5: b"\x01\x02\x03", 127: b"x"}, {128: b"y" * 128}, {2 ** 31 - 1: b"z"},
+                  {0: b"ab"}, {0: b"", 3: b"q"}]
+                 + [Gen(rng, "nonempty").tagged() for _ in range(n_random)]):
+        if not tags:
+            continue
+        rec.count("primitive_cases_checked" if judged else "primitive_cases_observed_only")
+        rec.res["evaluations"] += 1
+        d = tagged_primitive_defect(tags, L)
+        ref = wire.encode_tagged_fields(tags)
+        w = {"primitive": "TaggedFields", "value": jsonable(tags), "ref_hex": hexs(ref), "shard": {"kind": "static"}}
+        if d == "rejects_tag_zero":
+            rec.fail(judged, "tagged_fields_encode_rejects_tag_zero",
+                     f"TaggedFields.encode({jsonable(tags)!r}) asserts tag > 0; Kafka tags start at 0", w)
+        elif d:
+            lb, back = None, None
+            try:
+                lb = T.TaggedFields.encode(dict(tags))
+                back = T.TaggedFields.decode(io.BytesIO(lb))
+            except Exception as e:  # noqa: BLE001
+                back = f"<{type(e).__name__} raised>"
+            w["lib_hex"] = hexs(lb)
+            rec.fail(judged, "tagged_fields_encode_nonempty_roundtrip",
+                     f"TaggedFields.encode({jsonable(tags)!r}) = {hexs(lb, 24)} (no size varint); Kafka layout is "
+                     f"{hexs(ref, 24)}; decoding the library bytes gives {jsonable(back)!r}", w)
+        # decode of the Kafka layout must work whatever encode does
+        try:
+            got = T.TaggedFields.decode(io.BytesIO(ref))
+            if got != tags:
+                rec.fail(judged, "primitive_TaggedFields_decode_reference_value",
+                         f"TaggedFields.decode({hexs(ref, 24)}) = {jsonable(got)!r}, expected {jsonable(tags)!r}", w)
+        except Exception as e:  # noqa: BLE001
+            rec.fail(judged, "primitive_TaggedFields_decode_reference_raises", f"{type(e).__name__}: {e}", w)
+    # signed varints: referenced by no schema -> observation only
+    for label, lib_t, enc, dec, bits in (("VarInt32", T.VarInt32, wire.encode_varint, wire.decode_varint, 32),
+                                         ("VarInt64", T.VarInt64, wire.encode_varlong, wire.decode_varlong, 64)):
+        lo, hi = -2 ** (bits - 1), 2 ** (bits - 1) - 1
+        vals = [0, 1, -1, 63, 64, -64, -65, 8191, 8192, -8192, -8193, lo, hi] + \
+            [rng.randint(lo, hi) for _ in range(n_random)]
+        run(label, label in reach, lib_t, enc, dec, vals)
+
+
+# =====================================================================================
+# shards
+# =====================================================================================
+
+def shards(tier, seed):
+    if tier == "quick":
+        n_value_shards, per_class, prim_random = 15, 150, 300
+    else:
+        n_value_shards, per_class, prim_random = 30, 2500, 5000
+    out = [{"kind": "static", "seed": seed, "prim_random": prim_random, "timeout_s": 1800}]
+    for s in range(n_value_shards):
+        out.append({"kind": "values", "seed": seed * 100003 + s, "per_class": per_class, "timeout_s": 3000})
+    return out
+
+
+def _setup(params):
+    L = load_lib()
+    rec = Rec(params)
+    targets, untabled, excluded, judged_req = build_targets(L)
+    seen = {}
+    for t in targets:  # unique labels (ListGroupsRequest_v1/_v2 both declare API_VERSION 1)
+        if t.label in seen:
+            t.label = f"{t.label}_{snake(t.name)}"
+        seen[t.label] = t
+    for n in untabled:
+        rec.note("untabled_classes", n)
+        rec.inconclusive(f"class {n} has no entry in vf.wire_tables: not judged")
+    for n in excluded:
+        rec.note("excluded_classes", n)
+    rec.note("library_root", L.root)
+    return L, rec, targets
+
+
+def run_shard(params):
+    L, rec, targets = _setup(params)
+    kind = params.get("kind")
+    if kind == "static":
+        rng = random.Random(f"static:{params.get('seed', 0)}")
+        reach = check_structure(targets, L, rec)
+        for p in sorted(reach):
+            rec.note("primitives_reachable", p)
+        check_headers(targets, L, rec, rng)
+        check_negotiation(L, rec, rng)
+        check_builders(L, rec, rng)
+        check_primitives(L, rec, rng, reach, int(params.get("prim_random", 100)))
+        for v in rec.res["violations"]:      # replay = the same static shard
+            v["witness"]["shard"] = {"kind": "static", "seed": params.get("seed", 0),
+                                     "prim_random": int(params.get("prim_random", 100))}
+    elif kind == "values":
+        per = int(params["per_class"])
+        base = params["seed"]
+        for t in targets:
+            flexible = any(f[1] == "tagged_fields" for f in t.schema)
+            for i in range(per):
+                if flexible:
+                    mode = ("empty", "nonempty", "zero", "empty")[i % 4] if i % 8 else "nonempty"
+                else:
+                    mode = "empty"
+                big = (i % 12 == 5)
+                cs = f"{base}:{t.name}:{i}"
+                try:
+                    v = check_target_value(t, cs, L, rec, mode, big)
+                    if i == 0 and len(rec.res["samples"]) < 3 and t.kind != "aux":
+                        rec.res["samples"].append({"class": t.name, "case_seed": cs, "value": jsonable(v),
+                                                   "reference_hex": hexs(wire.encode_struct(t.schema, v), 80)})
+                except Exception as e:  # noqa: BLE001
+                    import traceback
+                    rec.inconclusive(f"checker error on {t.name} case {cs}: {type(e).__name__}: {e} "
+                                     f"{traceback.format_exc()[-400:]}")
+            if t.kind == "request":
+                for i in range(max(2, per // 2)):
+                    cs = f"{base}:{t.name}:reply:{i}"
+                    try:
+                        check_reply_case(t, cs, L, rec, big=(i % 12 == 5))
+                    except Exception as e:  # noqa: BLE001
+                        rec.inconclusive(f"checker error on reply case {cs}: {type(e).__name__}: {e}")
+    elif kind == "one":
+        t = next((x for x in targets if x.name == params["class"]), None)
+        if t is None:
+            rec.inconclusive(f"class {params['class']} not found")
+        elif params.get("mode") == "reply":
+            check_reply_case(t, params["case_seed"], L, rec, params.get("big", False))
+        else:
+            check_target_value(t, params["case_seed"], L, rec, params.get("tags_mode", "empty"), params.get("big", False))
+    else:
+        rec.inconclusive(f"unknown shard kind {kind!r}")
+    return rec.res
+
+
+def replay(witness):
+    return run_shard(witness.get("shard", {"kind": "static", "seed": 0}))
